@@ -422,9 +422,22 @@ def run(ctx, rep):
                     [e.get('n') for e in src0['place']['p'] if 'f' in e][-1:] == ['cluster']:
                 some = [x for v, x in tt['targets'] if v == 1]
                 exempt |= {(bi, x) for x in CT.succ(bi) if x not in some}
+            elif src0 and src0['kind'] == 'discr' and src0['place']['l'] == 1 and [e for e in src0['place']['p'] if 'f' in e]:
+                # the position kept as a private enum (`At(cluster)` / `End` / `Failed`): the arms of variants without a
+                # payload are "no current cluster"
+                from analyses import place_prefix_type
+                pty_ = place_prefix_type(CT, src0['place'], len(src0['place']['p']))
+                adt_ = facts.adts.get((pty_ or {}).get('path') or '')
+                if adt_ and adt_.get('kind') == 'enum' and (pty_.get('path') or '').startswith('fatfs::'):
+                    with_payload = {v.get('discr', i) for i, v in enumerate(adt_['variants']) if v.get('fields')}
+                    if len(with_payload) == 1:
+                        some = [x for v, x in tt['targets'] if v in with_payload]
+                        exempt |= {(bi, x) for x in CT.succ(bi) if x not in some}
         NEW = facts.fns.get('fatfs::table::ClusterIterator::new')
         fresh = NEW is not None and any(
-            s['k'] == 'assign' and s['rv']['k'] == 'agg' and s['rv'].get('variant') == 'Some'
+            s['k'] == 'assign' and s['rv']['k'] == 'agg' and (s['rv'].get('variant') == 'Some' or
+                                                               ((s['rv'].get('adt') or '').startswith('fatfs::') and s['rv'].get('ops') and
+                                                                facts.adts.get(s['rv'].get('adt'), {}).get('kind') == 'enum'))
             for bi in NEW.reachable() for s in NEW.blocks[bi]['stmts'])
         if not fresh:
             exempt = set()
